@@ -11,6 +11,9 @@
 Added after the second and third seeding rounds:
   append-only / chunk-stability  the arena rules of C18 (references held across awaits stay valid)
   queued-in-consumer             the dependencies consumer is total: a result that arrives late is expanded like an early one
+
+Added after the fifth seeding round:
+  core           all rules of C01 and C02 (rules/core.py): "the same verdict ... with a solution valid per C01"
 """
 from common import *
 import q, mech
